@@ -475,8 +475,8 @@ static std::vector<long> opmatrix_knobs() {
 }
 static const std::vector<StressFam> &stress_fams() {
 	static std::vector<StressFam> f = {
-		{"longident", {1, 63, 64, 255, 256, 257, 1000, 5000, 100000}, false},
-		{"longstring", {0, 255, 256, 257, 4095, 4096, 100000}, false},
+		{"longident", {1, 63, 64, 255, 256, 257, 1000, 5000, 100000, 1000000}, false},
+		{"longstring", {0, 255, 256, 257, 4095, 4096, 100000, 1000000}, false},
 		{"manynames", {16, 17, 33, 65, 129, 1000}, false},
 		{"localnames", {16, 17, 33, 65, 300}, false},
 		{"switch", {8, 17, 64, 257, 1500}, false},
@@ -492,7 +492,7 @@ static const std::vector<StressFam> &stress_fams() {
 		{"exprchain", {10, 255, 256, 2000}, false},
 		{"funcs", {1, 33, 65, 300}, false},
 		{"strings", {1, 33, 300}, false},
-		{"longcomment", {255, 256, 4096, 100000}, false},
+		{"longcomment", {255, 256, 4096, 100000, 1000000}, false},
 		{"structmembers", {1, 32, 33, 65, 500}, false},
 		{"switchfib", {3, 8, 13, 18, 22, 25}, false},
 		{"opmatrix", opmatrix_knobs(), false},
@@ -504,12 +504,12 @@ static const std::vector<StressFam> &stress_fams() {
 		{"objmacros", {1, 31, 32, 33, 64, 65, 129, 300}, true},
 		{"params", {0, 1, 6, 7, 8, 9, 32, 33, 100}, false},
 		{"escapes", {1, 10, 255, 256, 4096}, false},
-		{"errident", {1, 40, 55, 63, 64, 65, 255, 256, 5000}, false},
+		{"errident", {1, 40, 55, 63, 64, 65, 255, 256, 5000, 1000000}, false},
 		{"errstring", {1, 40, 55, 63, 64, 65, 255, 256, 5000}, false},
 		{"errnumber", {1, 40, 55, 63, 64, 65, 255, 5000}, false},
 		{"errundeclared", {1, 63, 64, 255, 256, 5000}, false},
 		{"errmacroargs", {1, 2, 3, 33}, true},
-		{"stringize", {1, 255, 256, 257, 511, 512, 513, 600, 4096, 100000}, true},
+		{"stringize", {1, 255, 256, 257, 511, 512, 513, 600, 4096, 100000, 1000000}, true},
 		{"eofpragma", {0, 1, 10}, false},
 		{"eofdirective", {0, 1, 2, 3, 4, 5, 6, 7, 8, 9, 10, 11, 12, 13, 14, 15, 16, 17, 18}, true},
 	};
